@@ -143,6 +143,9 @@ func concOp(kind string, row j.B, who string) bt.Op {
 		return bt.Op{Ev: "ReadRows", T: concTable, Now: j.N64(concNow)}
 	case "gc":
 		return bt.Op{Ev: "GcPass", T: concTable, Now: j.N64(concNow)}
+	case "rmwfail": // a valid append followed by an increment of a value that is not 8 bytes long: the request fails, nothing is stored
+		return bt.Op{Ev: "ReadModifyWrite", T: concTable, K: row, Now: j.N64(concNow), Rules: []bt.RmwRule{
+			{K: "append", F: j.S("f"), Q: j.S("ap"), V: j.S(who)}, {K: "incr", F: j.S("f"), Q: j.S("x"), Amt: j.B{0, 0, 0, 0, 0, 0, 0, 1}}}}
 	case "mrows": // two entries on the same row, the first one failing at its second mutation (unknown family), the second one succeeding: all-or-nothing per entry
 		return bt.Op{Ev: "MutateRows", T: concTable, Now: j.N64(concNow), Entries: []bt.Entry{
 			{K: row, Muts: []bt.Mut{{M: "set", F: j.S("f"), Q: j.S("a"), Ts: 3000, V: j.S(who)}, {M: "set", F: j.S("nofam"), Q: j.S("b"), Ts: 3000, V: j.S(who)}}},
@@ -440,7 +443,7 @@ func checkC06(c *Ctx) {
 	if !c.Quick() {
 		nStress = 400
 	}
-	kinds := []string{"incr", "incr", "cas", "mut2", "read", "mrows", "incr", "cas", "mut2", "read", "del", "incr", "mrows", "incr", "read", "mut2"}
+	kinds := []string{"incr", "incr", "cas", "mut2", "read", "mrows", "incr", "cas", "rmwfail", "read", "del", "incr", "mrows", "incr", "read", "mut2", "rmwfail"}
 	for i := 0; i < nStress; i++ {
 		var procs []btconc.Proc
 		n := 8 + r.Intn(9)
